@@ -77,7 +77,15 @@ KindStep(t, k) ==
     [] k = "badcookie_srv" -> b @@ [kind |-> "badcookie", cookie |-> "srv:S3"]
     [] OTHER -> b @@ [kind |-> k]
 
-Reply == /\ \E t \in live, k \in Kinds : h' = Append(h, KindStep(t, k))
+(* two datagrams read by one processing call: the first queued without processing *)
+BatchSteps(t, k) ==
+  LET b == [op |-> "reply", tx |-> Tx(t)] IN
+  CASE k = "batch_tc_flipcase" -> <<b @@ [kind |-> "tc", deliver |-> 0], b @@ [kind |-> "ok", flipcase |-> 1]>>
+    [] k = "batch_formerr_wrongname" -> <<b @@ [kind |-> "formerr", noopt |-> 1, deliver |-> 0], b @@ [kind |-> "ok", wrongname |-> 1]>>
+    [] k = "batch_servfail_ok" -> <<b @@ [kind |-> "servfail", deliver |-> 0], b @@ [kind |-> "ok"]>>
+    [] k = "batch_ok_ok" -> <<b @@ [kind |-> "ok", deliver |-> 0], b @@ [kind |-> "ok"]>>
+IsBatch(k) == k \in {"batch_tc_flipcase", "batch_formerr_wrongname", "batch_servfail_ok", "batch_ok_ok"}
+Reply == /\ \E t \in live, k \in Kinds : h' = (IF IsBatch(k) THEN h \o BatchSteps(t, k) ELSE Append(h, KindStep(t, k)))
          /\ UNCHANGED <<cfg, nreq, live>>
 
 Timeout == /\ "timeout" \in Extras /\ live # {}
@@ -94,8 +102,16 @@ Fault == /\ LastOp # "failnext"
          /\ \E f \in Faults : h' = Append(h, [op |-> "failnext", what |-> f, errno |-> 111])
          /\ UNCHANGED <<cfg, nreq, live>>
 
+(* Server identity in the projected trace is the address; a list that keeps an
+   address but changes its ports names a different server for c-ares.  So the
+   port-qualified list is only ever re-applied to a channel configured with
+   exactly that list, and the plain lists only to plainly configured channels. *)
+UriList == "dns://10.0.0.1:5301?tcpport=5302,dns://10.0.0.2:5301?tcpport=5302"
+HasUriServers == "servers" \in DOMAIN cfg
 SetServers == /\ "setservers" \in Extras
-              /\ \E csv \in {"10.0.0.2", "10.0.0.1", "10.0.0.2,10.0.0.1", "10.0.0.3,10.0.0.1,10.0.0.2"} : h' = Append(h, [op |-> "setservers", csv |-> csv])
+              /\ \E csv \in (IF HasUriServers THEN {cfg.servers}
+                              ELSE {"10.0.0.2", "10.0.0.1", "10.0.0.2,10.0.0.1", "10.0.0.3,10.0.0.1,10.0.0.2"}) :
+                    h' = Append(h, [op |-> "setservers", csv |-> csv])
               /\ UNCHANGED <<cfg, nreq, live>>
 
 Process == /\ "process" \in Extras /\ live # {}
